@@ -143,6 +143,10 @@ fn choose_transfer_encoding(
             // getting list of requested elements
             let mut parse = util::parse_header_value(value.as_str()); // TODO: remove conversion
 
+            // q=0 are ignored, and so is anything that is not a positive number: `q=NaN` parses
+            // as a float, and with it the comparison below would not be a total order
+            parse.retain(|value| value.1 > 0.0);
+
             // sorting elements by most priority
             parse.sort_by(|a, b| b.1.partial_cmp(&a.1).unwrap_or(Ordering::Equal));
 
